@@ -188,6 +188,40 @@ def gen_tree(r, depth, flt):
     return ("b", op, l, rr)
 
 
+CLASS_LITS = {
+    "bool": ["true", "false"],
+    "int": ["0", "1", "2", "3", "7", "31", "32", "33", "100", "2147483647", "0x7fffffff", "017", "0b101"],
+    "uint": ["0u", "1u", "2U", "31u", "32u", "4294967295u", "0x80000000", "0xFFFFFFFF", "3000000000u", "037777777777"],
+    "long": ["0L", "1l", "3LL", "63L", "64ll", "2147483648", "4294967296", "9223372036854775807", "0x100000000", "0x7fffffffffffffffL"],
+    "ulong": ["0ul", "1UL", "2llu", "63uLL", "64Lu", "0x8000000000000000", "18446744073709551615u", "0xFFFFFFFFFFFFFFFF", "4294967296u"],
+    "float": ["0.0f", "1.5f", "2.0F", "0.1f", "3e2f", "16777216.0f"],
+    "double": ["0.0", "1.5", "2.", ".5", "0.1", "1e10", "4294967296.0"],
+}
+
+
+def matrix_trees(r, per_cell):
+    """every operator on every pair of literal type classes (all dispatch rows and conversion pairs on every run)"""
+    out = []
+    classes = list(CLASS_LITS)
+    for op in ARITH + SHIFT + REL + BIT + LOGIC:
+        for ca in classes:
+            for cb in classes:
+                for _ in range(per_cell):
+                    a = ("L", r.choice(CLASS_LITS[ca]))
+                    b = ("L", r.choice(CLASS_LITS[cb]))
+                    if r.random() < 0.3:
+                        a = ("u", "-", a)
+                    out.append(("b", op, a, b))
+    for op in UNOPS:
+        for ca in classes:
+            for _ in range(2 * per_cell):
+                out.append(("u", op, ("L", r.choice(CLASS_LITS[ca]))))
+    for ca in classes:
+        for cb in classes:
+            out.append(("t", ("L", r.choice(CLASS_LITS[ca])), ("L", r.choice(CLASS_LITS[cb])), ("L", r.choice(CLASS_LITS[cb]))))
+    return out
+
+
 def prec(t):
     if t[0] == "L":
         return 0
@@ -339,6 +373,11 @@ CORPUS_EXPRS = [
     ("b:& p b:+ L:0 L:2 u:- L:1", "(0 + 2) & -1"),                    # F39
     ("b:+ L:2 u:! L:0101", "2 + !0101"),                              # F39
     ("t L:1 L:2 b:/ L:1 L:0", "1 ? 2 : 1 / 0"),
+    ("t L:0 b:/ L:1 L:0 L:2", "0 ? 1 / 0 : 2"),                       # the TRUE operand must not be evaluated either
+    ("t L:0 b:<< L:1 L:32 t L:1 L:5 b:% L:1 L:0", "0 ? 1 << 32 : 1 ? 5 : 1 % 0"),
+    ("b:+ p b:&& L:0 b:/ L:1 L:0 p b:|| L:1 b:/ L:1 L:0", "(0 && 1 / 0) + (1 || 1 / 0)"),
+    ("b:&& L:1 b:&& L:0 b:/ L:1 L:0", "1 && 0 && 1 / 0"),
+    ("b:|| L:0 b:|| L:2 b:/ L:1 L:0", "0 || 2 || 1 / 0"),
     ("t L:1 L:2 t L:0 L:3 L:4", "1 ? 2 : 0 ? 3 : 4"),                 # F40 (parser): groups right-to-left
     ("t L:1 t L:0 L:2 L:3 L:4", "1 ? 0 ? 2 : 3 : 4"),                 # F40: conditional in the middle operand
     ("t L:0 t L:1 L:2 L:3 t L:0 L:5 L:6", "0 ? 1 ? 2 : 3 : 0 ? 5 : 6"),
@@ -378,7 +417,10 @@ def gen_P(r):
     if k < 0.6:
         return "P " + sign + int_literal(r)
     if k < 0.9:
-        return "P " + sign + float_literal(r)
+        f = float_literal(r)
+        if "_" in sign and f[-1] not in "fF":
+            sign = sign[0]      # "- 1.5": occa::parseDouble returns an uninitialised double when sscanf fails
+        return "P " + sign + f  # (reported by the JSON property's owner); not generated: not deterministic
     return "P " + sign + r.choice(["true", "false", "0x", "0b", "0b2", "x", "", "1e", "1.5e+", "08", "0x1G", "1uu", "1lll", "1ulu"]) \
         if False else "P " + sign + r.choice(["true", "false", "0x", "0b2", "x1", "1e", "08", "0x1G", "1uu", "1lll", "1ulu", "1.5.2"])
 
@@ -510,11 +552,17 @@ def main(argv):
         ck.correspond(hb, db, [read_replay(ck.replay)], label="constfold", env=env)
         ck.finish(META["level_text"])
 
-    n = 6000 if ck.tier == "quick" else 150000
+    n = int(os.environ.get("VERIF_C14_N", "0")) or (5000 if ck.tier == "quick" else 150000)
     r = ck.rng
     cands = list(CORPUS_EXPRS) + list(KNOWN_EXPRS)
     ncorpus = len(cands)
     seen = set(t for _, t in cands)
+    for tree in matrix_trees(r, 1 if ck.tier == "quick" else 6):
+        ptoks, text = render(r, tree, redundant=0.05)
+        if text not in seen:
+            seen.add(text)
+            cands.append((" ".join(ptoks), text))
+    nmatrix = len(cands) - ncorpus
     while len(cands) < n + ncorpus:
         flt = r.random() < 0.35
         tree = gen_tree(r, r.choice([1, 2, 2, 3, 3, 4, 5]), flt)
@@ -540,7 +588,7 @@ def main(argv):
 
     # 3. specification vs host compiler: validates CxxSem (value, type, and definedness)
     cnt = ck.cov["counters"]
-    cnt.update({"candidates": len(cands), "host_defined": 0, "host_rejected": 0, "spec_unsupported": 0, "unclean_dropped": 0,
+    cnt.update({"candidates": len(cands), "matrix_cells": nmatrix, "host_defined": 0, "host_rejected": 0, "spec_unsupported": 0, "unclean_dropped": 0,
                 "model_ub_skipped": 0, "float_exprs": 0, "guarded_ub_defined": 0})
     spec_bad = 0
     for i, (p, t) in enumerate(cands):
